@@ -7,6 +7,7 @@ import MosVerif.Lemmas.TrieLemmas
 import MosVerif.Lemmas.TextLemmas
 import MosVerif.Lemmas.ReadableLemmas
 import MosVerif.Lemmas.MixLemmas
+import MosVerif.Lemmas.TranslatedC11
 import MosVerif.Generated.Facts
 namespace MosVerif.C11
 open MosVerif.Text MosVerif.Trie MosVerif.DomainSet
@@ -394,38 +395,27 @@ def asciiOf (s : String) : Bytes := s.toList.map (fun c => UInt8.ofNat c.toNat)
 set_option maxRecDepth 100000 in
 /-- pinned source facts the model depends on. -/
 theorem pins :
-    -- the key: which map, the array width, the length octet
-    Facts.dm_keyLt_addLeaf = "l < 24" ∧ Facts.dm_keyLt_getOrAdd = "l < 24" ∧
-    Facts.dm_keyLt_getChild = "l < 24" ∧
+    -- the key: the array width, the length octet (the `l < 24` tests: `Lemmas/TranslatedC11`, `keyOf_translated_*`)
     Facts.dm_shortKeyBody = "{ copy(key[:23], label) key[23] = byte(len(label)) return key }" ∧
     Facts.dm_shortMapMake = "n.s = make(map[[24]byte]*labelNode)" ∧
     Facts.dm_addLeafShort = "n.s[shortLabelKey(label)] = nil" ∧
     Facts.dm_addLeafLong = "n.l[string(label)] = nil" ∧
-    -- DomainMatcher.Add / Match
-    Facts.dm_addRootCond = "m.rootMatched" ∧ Facts.dm_addLoopCond = "i >= 0" ∧
-    Facts.dm_addSkipCond = "len(label) == 0" ∧ Facts.dm_addLeafCond = "i == 0" ∧
-    Facts.dm_addEarlyReturnCond = "ok && child == nil" ∧ Facts.dm_addNoLabelCond = "!hasLabel" ∧
-    Facts.dm_matchLoopCond = "i >= 0" ∧ Facts.dm_matchNilCond = "child == nil" ∧
+    -- DomainMatcher.Add / Match: nil-ness tests (the integer / boolean tests: `addWalk_translated`,
+    -- `add_translated`, `matchWalk_translated`)
+    Facts.dm_addEarlyReturnCond = "ok && child == nil" ∧
+    Facts.dm_matchNilCond = "child == nil" ∧
     Facts.dm_matchNilReturn = "return ok" ∧
-    -- MixMatcher.Add, loader
+    -- MixMatcher.Add, loader (the `i >= 0` and `len(b) == 0` tests: `mixAdd_translated`,
+    -- `stripComment_translated`, `loaderLine_translated`)
     Facts.dm_mixSep = "':'" ∧ Facts.dm_mixLowerCount = 2 ∧
     Facts.dm_mixSwitchRegexp = "case \"regexp\": return m.regexp.Add(string(exp))" ∧
     Facts.dm_loaderComment = "'#'" ∧ Facts.dm_loaderTrim = "b = bytes.TrimSpace(b)" ∧
-    Facts.dm_loaderBlankCond = "len(b) == 0" ∧
-    -- text form, lower-casing
-    Facts.dm_escapeDDD = "dst = append(dst, '\\\\', '0'+b/100, '0'+b/10%10, '0'+b%10)" ∧
+    -- text form: the call of `isPrintableLabelChar` (its body, the four appended octets of the `\DDD` escape,
+    -- the lower-casing step, the root test: `isPrintableLabelChar_translated`, `escapeByte_translated`,
+    -- `lowerByte_translated`, `toReadable_translated`)
     Facts.dm_escapePrintableCond = "isPrintableLabelChar(b)" ∧
-    Facts.dm_printableBody =
-      "{ return ('a' <= b && b <= 'z') || ('A' <= b && b <= 'Z') || ('0' <= b && b <= '9') || b == '-' }" ∧
-    Facts.dm_lowerCond = "'A' <= c && c <= 'Z'" ∧ Facts.dm_lowerStmt = "c += 'a' - 'A'" ∧
-    Facts.dm_readableRootCond = "len(n) == 0" ∧
-    -- builder / scanner limits
-    Facts.dm_appendZeroCond = "l == 0" ∧ Facts.dm_appendLongCond = "l > 63" ∧
-    Facts.dm_appendEndCond = "labelEnd > 253" ∧ Facts.dm_parseIdxCond = "i > 0" ∧
-    Facts.dm_parseAdvance = "off += len(label) + 1" ∧
-    Facts.dm_parseTrailCond = "len(s) > 0 && s[len(s)-1] == '.'" ∧
-    Facts.dm_scanTooLongCond = "len(s.n) > 254" ∧ Facts.dm_scanLabelLongCond = "labelLen > 63" ∧
-    Facts.dm_scanLabelEndCond = "labelEnd > len(s.n)" ∧
+    -- (builder / scanner limits and offsets: `appendLabel_translated`, `parseReadable_translated`,
+    -- `parseLoop_translated`, `dropTrailingDot_translated`, `scan_translated`, `scanLoop_*_translated`)
     -- the model's constants
     keyWidth = 24 ∧ labelMax = 63 ∧ builderMax = 253 ∧ scanMax = 254 ∧
     typDomain = asciiOf "domain" ∧ typFull = asciiOf "full" ∧ typRegexp = asciiOf "regexp" ∧
